@@ -9,6 +9,7 @@ case "$EXPECT" in thorough:*) TIER="--tier thorough"; EXPECT=${EXPECT#thorough:}
 HERE=$(cd "$(dirname "$0")/.." && pwd)
 WT=$(mktemp -d /tmp/mut-XXXXXX)
 git -C /repo worktree add --detach -q "$WT" HEAD || exit 2
+[ -f /repo/Cargo.lock ] && cp /repo/Cargo.lock "$WT/"      # ignored by git, so not part of the worktree; the pinned resolution is part of the analysed tree
 cleanup() { git -C /repo worktree remove --force "$WT" >/dev/null 2>&1; rm -rf "$WT"; }
 trap cleanup EXIT
 if ! git -C "$WT" apply "$PATCH"; then echo "MUTANT $(basename $PATCH): patch does not apply"; exit 2; fi
